@@ -66,24 +66,46 @@ class Runner:
         return observed(rc, out, err)
 
 
+def level_name(levels):
+    levels = sorted(levels)
+    return "all levels" if 0 in levels and (2 in levels or levels == [0]) else "O" + "".join(map(str, levels))
+
+
 def attribute(rn, prog, ref, fails):
-    """fails: {opt: observed}. Returns the canonical key of the violation."""
+    """fails: {opt: observed}. Returns the canonical keys of the defects that explain the failure: each value-neutral
+    rewrite that removes one mechanism is applied in turn and the failing levels are re-run; whatever no rewrite
+    explains is 'unclassified'."""
     shapes = ref[2]
-    levels = sorted(fails)
-    if 0 in fails or 1 in fails:
-        lv = "all levels" if levels == [0, 1, 2] or levels == [0, 2] or levels == [0] else "O" + "".join(map(str, levels))
-        if "S" in shapes:
-            o = min(levels)
-            if agrees(ref, rn.run(c08gen.detemp(prog), o, tag="dt")):
-                return "%s: assignment whose source is the target's own storage" % lv
-        if "D" in shapes:
-            return "%s: Referenz to a part of a variable whose container the callee replaces" % lv
-        return "%s: unclassified" % lv
-    # -O2 only
-    if agrees(ref, rn.run(c08gen.deelide(prog), 2, tag="de")):
-        names = sorted(SHAPE_NAME[s] for s in shapes if s in ("A", "G", "P"))
-        return "O2 parameter-copy elision: " + (", ".join(names) if names else "unclassified aliasing")
-    return "O2 only: unclassified"
+    keys = []
+    cur = prog
+    left = dict(fails)
+
+    def rerun(p, levels):
+        out = {}
+        for o in levels:
+            obs = rn.run(p, o, asan=(left[o][0] == "asan"), tag="at")
+            if not agrees(ref, obs):
+                out[o] = obs
+        return out
+    if "S" in shapes:
+        t = c08gen.detemp(cur)
+        l2 = rerun(t, sorted(left))
+        if len(l2) < len(left):
+            keys.append("%s: assignment whose source is the target's own storage" % level_name(set(left) - set(l2)))
+            cur, left = t, l2
+    if left and set(left) <= {2}:
+        t = c08gen.deelide(cur)
+        l2 = rerun(t, [2])
+        if not l2:
+            names = sorted(SHAPE_NAME[s] for s in shapes if s in ("A", "G", "P"))
+            keys.append("O2 parameter-copy elision: " + (", ".join(names) if names else "unclassified aliasing"))
+            cur, left = t, l2
+    if left and "D" in shapes:
+        keys.append("%s: Referenz to a part of a variable whose container the callee replaces" % level_name(left))
+        left = {}
+    if left:
+        keys.append("%s: unclassified" % level_name(left))
+    return keys
 
 
 def shrink(rn, prog, ref_key, budget=30):
@@ -124,7 +146,7 @@ def shrink(rn, prog, ref_key, budget=30):
                     fails[o] = obs
             if fails:
                 try:
-                    if attribute(rn, q, ref, fails) == ref_key:
+                    if ref_key in attribute(rn, q, ref, fails):
                         cur = q
                         changed = True
                         break
@@ -180,6 +202,7 @@ def main():
         "coq/Lower/Opt2.v is a hand transcription of compiler.go:386-412 (claimOrCopy), 2306-2335 (assignment: free, then claim/copy), 2048-2068 + 616-650 (parameter passing), 435-448 (exitFuncScope), 2572-2583 (for-each holder) and const_func_param.go:57-171; one level of non-primitive values (Text / Zahlen Liste as sequences), locals freed at function exit, calls as statements",
         "the expected output of every generated program comes from a value-semantics interpreter written for this check (checks/c08gen.py: immutable values, Referenz = caller lvalue path), not from the model",
         "LLVM 14, gcc, glibc malloc (a read of freed memory is only visible as garbage/crash or through the ASan flavour) are outside the model",
+        "harness/go/cmd/constx prints the ConstFuncParamMeta the real annotator attaches (compared with the model's `analyse` for every program of the model's fragment)",
         "attribution of a failure to a listed defect uses value-neutral rewrites (deelide: write every non-primitive value parameter once; detemp: assign temporaries) and the aliasing facts observed by the reference interpreter",
     ]
     ck.coq()
@@ -228,6 +251,9 @@ def main():
         progs.append((dict(kind="random", model_only=bool(made % 2), n=made), p))
         made += 1
     opts = [0, 1, 2]
+    if os.environ.get("VERIF_C08_STRIDE"):   # development aid only: a slice of the programs
+        k = int(os.environ["VERIF_C08_STRIDE"])
+        progs = progs[:ncorpus] + progs[ncorpus::k]
     # ---- expected results
     items = []
     for meta, p in progs:
@@ -238,13 +264,50 @@ def main():
     # ---- model predictions (one batch)
     mlines = [m for (_, _, _, m) in items if m]
     model_out = {}
+    analysis_checked = analysis_bad = 0
     if mlines:
-        mp = subprocess.run([vlib.model_bin("c08")], input="\n".join(mlines) + "\n", capture_output=True, text=True, timeout=900)
+        def big_stack():
+            import resource
+            resource.setrlimit(resource.RLIMIT_STACK, (resource.RLIM_INFINITY, resource.RLIM_INFINITY))
+        mp = subprocess.run([vlib.model_bin("c08")], input="\n".join(mlines) + "\n", capture_output=True, text=True, timeout=900, preexec_fn=big_stack)
         outs = mp.stdout.splitlines()
         if len(outs) != len(mlines):
             ck.broken_obligation("the extracted model driver answered %d of %d programs" % (len(outs), len(mlines)), mp.stderr[-1000:])
         else:
             model_out = dict(zip(mlines, outs))
+        # ---- the analysis table itself: the real ConstFuncParamAnnotator against the model's `analyse`
+        cx, lgx = b.ensure_go("constx")
+        if cx is None:
+            ck.broken_obligation("harness constx does not build", lgx[-1500:])
+        elif model_out:
+            paths = []
+            mitems = [it for it in items if it[3]]
+            for n, it in enumerate(mitems):
+                f = os.path.join(sc, "cx%d.ddp" % n)
+                open(f, "w").write(c08gen.render(it[1]))
+                paths.append(f)
+            cp = subprocess.run([cx], input="\n".join(paths) + "\n", capture_output=True, text=True, timeout=900, env=dict(os.environ, DDPPATH=b.dir))
+            couts = cp.stdout.splitlines()
+            if len(couts) != len(paths):
+                ck.broken_obligation("constx answered %d of %d programs" % (len(couts), len(paths)), cp.stderr[-1000:])
+            else:
+                for it, co in zip(mitems, couts):
+                    nf = len(it[1]["funs"])
+                    want = [w[1:] for w in model_out[it[3]].split(" ; ")[2].split()] if nf else []
+                    if not co.startswith("OK"):
+                        ck.violation("harness: generated program rejected by the frontend", co[:300], dict(source=c08gen.render(it[1]), meta=it[0]))
+                        continue
+                    got = [w.split(":")[1] for w in co.split()[1:]][-nf:] if nf else []
+                    analysis_checked += 1
+                    if got != want:
+                        analysis_bad += 1
+                        if analysis_bad == 1:
+                            ck.broken_obligation("the constant-parameter table of the model (`analyse`) differs from ConstFuncParamAnnotator: model %s, annotator %s" % (want, got), c08gen.render(it[1]))
+            for f in paths:
+                try:
+                    os.remove(f)
+                except OSError:
+                    pass
     # ---- run
     jobs = [(i, o) for i in range(len(items)) for o in opts]
 
@@ -316,26 +379,26 @@ def main():
         if not fails:
             continue
         stats["failing_programs"] += 1
-        key = attribute(rn, p, ref, fails)
+        keys = attribute(rn, p, ref, fails)
         o = min(fails)
         replay = dict(source=c08gen.render(p), opt=o, failing_levels=sorted(fails), expected=[ref[0], ref[1]], observed=list(fails[o]), meta=meta,
-                      aliasing_facts=sorted(ref[2]), how="kddp kompiliere prog.ddp -o prog.o -O %d; link; ./prog" % o, program=p)
-        is_new = ck.violation(key, "expected %r, -O %d executable gave %r" % (ref[:2], o, fails[o][:2]), replay)
-        if is_new and key not in seen_keys and meta["kind"] != "corpus":
-            # unknown violation: shrink and persist
-            small = shrink(rn, p, key)
-            replay["source"] = c08gen.render(small)
-            replay["program"] = small
-            replay["expected"] = list(c08gen.reference(small)[:2])
-            cf = os.path.join(cdir, "v_%s.json" % abs(hash(key)) % 10**8)
-            json.dump(dict(key=key, program=small, source=c08gen.render(small)), open(cf, "w"), ensure_ascii=False, indent=1)
-        if key not in seen_keys:
-            seen_keys[key] = 0
-            # persist one small example per key (the dedicated shape programs are already minimal)
-            cf = os.path.join(cdir, "k_%s.json" % "".join(ch if ch.isalnum() else "_" for ch in key)[:80])
-            if not os.path.exists(cf) and meta["kind"] in ("shape", "matrix"):
-                json.dump(dict(key=key, program=p, source=c08gen.render(p), expected=ref[:2]), open(cf, "w"), ensure_ascii=False, indent=1)
-        seen_keys[key] += 1
+                      aliasing_facts=sorted(ref[2]), explained_by=keys, how="kddp kompiliere prog.ddp -o prog.o -O %d; link; ./prog" % o, program=p)
+        for key in keys:
+            is_new = ck.violation(key, "expected %r, -O %d executable gave %r" % (ref[:2], o, fails[o][:2]), replay)
+            if is_new and key not in seen_keys and meta["kind"] != "corpus":
+                # unknown violation: shrink and persist
+                small = shrink(rn, p, key)
+                replay = dict(replay, source=c08gen.render(small), program=small, expected=list(c08gen.reference(small)[:2]))
+                ck.violations[-1] = (key, ck.violations[-1][1], replay, False)
+                cf = os.path.join(cdir, "v_%08d.json" % (abs(hash(key)) % 10**8))
+                json.dump(dict(key=key, program=small, source=c08gen.render(small)), open(cf, "w"), ensure_ascii=False, indent=1)
+            if key not in seen_keys:
+                seen_keys[key] = 0
+                # persist one small example per key (the dedicated shape programs are already minimal)
+                cf = os.path.join(cdir, "k_%s.json" % "".join(ch if ch.isalnum() else "_" for ch in key)[:80])
+                if not os.path.exists(cf) and meta["kind"] in ("shape", "matrix"):
+                    json.dump(dict(key=key, program=p, source=c08gen.render(p), expected=ref[:2]), open(cf, "w"), ensure_ascii=False, indent=1)
+            seen_keys[key] += 1
     # ---- ASan flavour on a sample: the aliasing shapes and a slice of the rest, at -O 0 and -O 2
     sample = [i for i, it in enumerate(items) if it[0]["kind"] == "shape"][: (24 if ck.quick else 200)]
     sample += [i for i, it in enumerate(items) if it[0]["kind"] != "shape"][:: (40 if ck.quick else 12)]
@@ -356,15 +419,16 @@ def main():
             n_asan += 1
             if o in {oo for oo in by_prog[i] if not agrees(ref, by_prog[i][oo])}:
                 continue   # already reported from the plain run
-            key = attribute(rn, p, ref, {o: a})
-            ck.violation(key, "sanitizer flavour at -O %d: %s" % (o, a[2][:300]),
-                         dict(source=c08gen.render(p), opt=o, asan=True, expected=[ref[0], ref[1]], observed=list(a), meta=meta, aliasing_facts=sorted(ref[2])))
+            for key in attribute(rn, p, ref, {o: a}):
+                ck.violation(key, "sanitizer flavour at -O %d: %s" % (o, a[2][:300]),
+                             dict(source=c08gen.render(p), opt=o, asan=True, expected=[ref[0], ref[1]], observed=list(a), meta=meta, aliasing_facts=sorted(ref[2])))
+                seen_keys[key] = seen_keys.get(key, 0) + 1
     if model_bad and not ck.violations:
         what, meta, mres, got, src = model_bad[0]
         ck.broken_obligation("model/implementation correspondence: %s (%d cases); first: model %s, other side %s" % (what, len(model_bad), mres, got), src)
     ck.cov.update(dict(
         programs=len(items), corpus_programs=ncorpus, by_kind=dist, opt_levels=opts, asan_runs=len(ajobs), asan_reports_or_diffs=n_asan, dropped=dropped,
-        keys=seen_keys, model_mismatches=len(model_bad), **stats,
+        keys=seen_keys, model_mismatches=len(model_bad), analysis_tables_compared=analysis_checked, analysis_tables_differing=analysis_bad, **stats,
         matrix="types (Text, Zahlen Liste, Text Liste, Datensatz) x constructs %s x mutations %s x mutated holder (A|B): every combination that exists in the language" % (list(c08gen.CONSTRUCTS), list(c08gen.MUTATIONS)),
         rule="evaluations = executable runs (program x -O level, plus ASan runs, plus attribution re-runs not counted); distinct_nontrivial = distinct generated sources whose expected output is non-empty (every program shows both holders before and after the mutation)",
         distribution="random programs: 2-4 globals, 1-3 functions with 1-3 parameters (45%% Referenz; value+Referenz of one type forced in 60%%), calls reuse the root variable of an earlier argument with probability 0.5-0.6; half of them restricted to the model's fragment"))
